@@ -345,3 +345,43 @@ func HarnessC05TripleText() {
 	verif.Assert(terr == nil && got == txt, "C05/triple-text/same-text")
 	verif.Assert(t2.String() == line, "C05/triple-text/reprint")
 }
+
+// C05 (d'): objects whose text contains the delimiter of another kind of
+// object: a predicate-valued object whose id contains `"^^type:` (with or
+// without a known type name behind it) and a text literal that contains `"@[`
+// print to text that ParseObject reads back as the same kind with the same
+// components.
+func HarnessC05ObjectDelimiter() {
+	head := verif.String("head", verif.Choice("hl", 2))
+	tail := verif.String("tail", verif.Choice("tl", verif.Param("T", 1)+1))
+	for _, s := range []string{head, tail} {
+		for i := 0; i < len(s); i++ {
+			verif.Assume(s[i] < 0x80)
+		}
+	}
+	var o *triple.Object
+	if verif.Choice("kind", 2) == 0 {
+		id := head + "\"^^type:" + []string{"", "text", "int64", "bool"}[verif.Choice("type", 4)] + tail
+		verif.Assume(noSpace(id))
+		verif.Assume(!earlyAnchor(id)) // the recorded C05 finding (needs three more bytes than the holes have)
+		o = triple.NewPredicateObject(symPredicateFromID(id, 2*verif.Choice("pk", 2)))
+	} else {
+		txt := head + "\"@[" + []string{"", "]", "2006-01-02T15:04:05Z]"}[verif.Choice("anchor", 3)] + tail
+		verif.Assume(verif.And(noByte(txt, '\n'), noByte(txt, '\r')))
+		verif.Assume(!earlyTypeDelimiter(txt)) // not reachable at these lengths; the recorded C05 finding
+		o = triple.NewLiteralObject(symLiteralText(txt))
+	}
+	txt := o.String()
+	var o2 *triple.Object
+	var err error
+	if !noPanic("C05/object/no-panic", func() { o2, err = triple.ParseObject(txt, literal.DefaultBuilder()) }) {
+		return
+	}
+	verif.Reach("parsed")
+	verif.Assert(err == nil && o2 != nil, "C05/object/parses-back")
+	if err != nil || o2 == nil {
+		return
+	}
+	verif.Assert(sameObject(o, o2), "C05/object/equal")
+	verif.Assert(o2.String() == txt, "C05/object/reprint")
+}
